@@ -41,6 +41,16 @@ Inductive input :=
        access token opens for the subject) and then writes it as "CODE" / "IDT" /
        "AT"; a value that fails the check stays as it is.  token_type,
        expires_in, scope and the raw Location / body are projected away. *)
+| IInbound (post : bool) (query body : string) (sent : list string) (i : input)
+    (* the INBOUND side: the authorization request as the raw bytes the client
+       put on the wire - GET /authorize?query, or POST /authorize?query with the
+       urlencoded [body] - followed to the response [i] describes (IFlow / IErr;
+       the state written in [i] is a placeholder).  The state parameter is written
+       by the driver in encodings of its choice (standard, RFC 3986 minimal with
+       raw sub-delims such as ';', '+' or %20, lower-case hex, verbatim, broken
+       escapes, repeated, in query and body), next to garbage segments.
+       [sent] = the client's side of it: every admissible reading of the state it
+       sent ([""] = none sent; several for a repeated / undecodable state) *)
 | IOverlap (other : input) (i : input)
     (* two calls on one provider that overlap in time: the call [i] is started
        and held at a point inside the library (a getter of its auth request, a
@@ -149,10 +159,11 @@ Fixpoint strip (i : input) : input :=
   | _ => i
   end.
 
-Definition model_base (i : input) : observed :=
+Definition model_leaf (i : input) : observed :=
   match i with
   | IAfter _ _ _ => OFail
   | IOverlap _ _ => OFail
+  | IInbound _ _ _ _ _ => OFail
   | IUrl _ None _ _ _ => OFail
   | IUrl _ (Some u) rtype rmode r =>
       url_obs u (auth_response_url u rtype rmode (encode_response r))
@@ -183,6 +194,39 @@ Definition model_base (i : input) : observed :=
                             (auth_response_url u rtype rmode
                                (encode_response (RError etype desc st ss))))
            end
+  end.
+
+(* http.Request.ParseForm as op.ParseAuthorizeRequest / decodeRequest use it: GET reads
+   the raw query, POST the urlencoded body and then the raw query (per key: body
+   values first); any refused segment is an error and the library answers 400 (None) *)
+Definition inbound_form (post : bool) (query body : string) : option pairs :=
+  if query_ok query && (negb post || query_ok body)
+  then Some ((if post then parse_query body else []) ++ parse_query query)
+  else None.
+
+(* zitadel/schema decoder, single-valued field [k] (lower-case ASCII name): a form
+   key addresses the field when strings.EqualFold(alias, key) (cache.go) - finding
+   Fxx-C11-2: "State" is read as state -; the LAST value; absent = "".  (Two
+   different keys that fold to one field are decoded in map order, i.e. at random:
+   the driver never sends that.) *)
+Definition field_value (k : string) (form : pairs) : string :=
+  last (map snd (filter (fun p => String.eqb (fold_lower (fst p)) k) form)) EmptyString.
+
+Definition set_state (st : string) (i : input) : input :=
+  match i with
+  | IFlow r p rt rm _ ss => IFlow r p rt rm st ss
+  | IErr r p rt rm e d _ ss dis => IErr r p rt rm e d st ss dis
+  | _ => i
+  end.
+
+Definition model_base (i : input) : observed :=
+  match i with
+  | IInbound post query body _ i' =>
+      match inbound_form post query body with
+      | None => OFail
+      | Some form => model_leaf (set_state (field_value "state" form) i')
+      end
+  | _ => model_leaf i
   end.
 
 Definition model (i : input) : observed := model_base (strip i).
@@ -276,10 +320,11 @@ Definition flow_produced (rtype state ss : string) : pairs :=
   else (if String.eqb rtype "id_token token" then [("access_token", "AT")] else [])
        ++ [("id_token", "IDT")] ++ opt_field "state" state.
 
-Definition spec_base (i : input) (o : observed) : bool :=
+Definition spec_leaf (i : input) (o : observed) : bool :=
   match i with
   | IAfter _ _ _ => false
   | IOverlap _ _ => false
+  | IInbound _ _ _ _ _ => false
   | IFlow redirect parsed rtype rmode st ss =>
       if String.eqb rmode "form_post" then form_spec redirect (flow_produced rtype st ss) o
       else match parsed with
@@ -312,6 +357,20 @@ Definition spec_base (i : input) (o : observed) : bool :=
       end
   end.
 
+(* inbound: a state that was sent comes back unchanged - as one of the admissible
+   readings of what the client put on the wire - or nothing at all is answered to
+   the redirect URI (the request is refused).  The raw bytes and Go's reading of
+   them play no part here. *)
+Definition spec_base (i : input) (o : observed) : bool :=
+  match i with
+  | IInbound _ _ _ sent i' =>
+      match o with
+      | OFail => true
+      | _ => existsb (fun s => spec_leaf (set_state s i') o) sent
+      end
+  | _ => spec_leaf i o
+  end.
+
 (* a failed write of an earlier answer changes nothing about what is owed *)
 Definition spec (i : input) (o : observed) : bool := spec_base (strip i) o.
 
@@ -340,10 +399,11 @@ Definition url_wf_redirect (u : purl) : bool :=
 
 Definition is_error (r : response) : bool := match r with RError _ _ _ _ => true | _ => false end.
 
-Definition wf_base (i : input) : bool :=
+Definition wf_leaf (i : input) : bool :=
   match i with
   | IAfter _ _ _ => false
   | IOverlap _ _ => false
+  | IInbound _ _ _ _ _ => false
   | IFlow redirect parsed rtype rmode _ ss =>
       (* the registered response types; session state belongs to the code response *)
       (String.eqb rtype "code"
@@ -360,10 +420,24 @@ Definition wf_base (i : input) : bool :=
   | IErr _ (Some u) _ _ _ _ _ _ _ => url_wf_redirect u
   end.
 
+(* inbound: the provider's reading of the raw state is one of the client's readings
+   (C11_inbound_standard_encoding proves it for the standard encoding; the other
+   encodings the driver writes either are refused by net/http or decode alike) *)
+Definition wf_base (i : input) : bool :=
+  match i with
+  | IInbound post query body sent i' =>
+      match inbound_form post query body with
+      | None => true
+      | Some form => string_in (field_value "state" form) sent
+                     && wf_leaf (set_state (field_value "state" form) i')
+      end
+  | _ => wf_leaf i
+  end.
+
 Definition wf (i : input) : bool := wf_base (strip i).
 
 (* decision-path class of the model run; 0 = nothing delivered *)
-Definition path_base (i : input) (o : observed) : nat :=
+Definition path_leaf (i : input) (o : observed) : nat :=
   match i, o with
   | _, OFail => 0
   | _, OPanic => 0
@@ -386,6 +460,14 @@ Definition path_base (i : input) (o : observed) : nat :=
   | IFlow _ _ rtype _ _ _, OForm _ _ _ _ =>
       if String.eqb rtype "code" then 24 else 25
   | _, _ => 19
+  end.
+
+Definition path_base (i : input) (o : observed) : nat :=
+  match i, o with
+  | IInbound _ _ _ _ _, OFail => 0
+  | IInbound _ _ _ _ _, OPanic => 0
+  | IInbound post _ _ _ i', _ => (if post then 60 else 30) + path_leaf i' o
+  | _, _ => path_leaf i o
   end.
 
 Definition path (i : input) (o : observed) : nat := path_base (strip i) o.
